@@ -12,7 +12,7 @@ import sys
 sys.path.insert(0, os.path.dirname(os.path.dirname(os.path.abspath(__file__))))
 
 from mc import runner, fakegame  # noqa: E402
-from mc.driver import MachineDriver  # noqa: E402
+from mc.driver import MachineDriver, simple_state  # noqa: E402
 from mc.explore import bfs  # noqa: E402
 
 QUEUE_EVENTS = ["game_starting", "player_adding", "player_turn_starting", "ball_starting", "ball_ending",
@@ -162,10 +162,10 @@ class Grammar:
         return ["ball_ended"]
 
     def on_ball_ended(self, kw):
-        nxt = ["player_turn_will_end"]
         if self.extra_pending.get(self.turn_player, 0) > 0:
-            nxt.append("ball_will_start")
-        return nxt
+            # one more ball per extra ball awarded; what happens to it after an end request is not judged
+            return ["ball_will_start", "player_turn_will_end"] if self.end_requested else ["ball_will_start"]
+        return ["player_turn_will_end"]
 
     # ---- end ----
     def on_game_will_end(self, kw):
@@ -277,9 +277,9 @@ class GameDriver(MachineDriver):
         elif k in ("tilt", "slam"):
             if g and not g.ending:
                 if k == "slam":
-                    self.reason = True
                     self.g.end_requested = True
-                elif not g.tilted:
+                if not g.tilted:
+                    # a (slam) tilt while the machine is already tilted is ignored by the tilt mode: not judged
                     self.reason = True
             sw = "s_tilt" if k == "tilt" else "s_slam"
             m.switch_controller.process_switch(sw, 1, logical=True)
@@ -307,7 +307,7 @@ class GameDriver(MachineDriver):
                     self.violate("game-not-cleared", "game_ended was posted but machine.game=%r, game mode active=%s" %
                                  (m.game, m.modes["game"].active))
             # a ball whose balls in play reached zero must have ended
-            if g and self.g.in_ball and self.ref_bip == 0 and self.reason and not g.tilted:
+            if g and self.g.in_ball and self.reason:
                 self.violate("ball-did-not-end", "balls in play reached zero / an end was requested but the ball has not ended "
                              "(expecting %r)" % self.g.expect)
 
@@ -318,7 +318,9 @@ class GameDriver(MachineDriver):
                 (g.num_players, g.player.number if g.player else None, g.player.ball if g.player else None,
                  g.player.extra_balls if g.player else None, g.balls_in_play, g.tilted, g.slam_tilted, g.ending,
                  g._end_ball_event.is_set() if g._end_ball_event else None) if g else None,
-                m.playfield.balls, self.modes_fp(), self.rel_timers(), self.task_fp())
+                m.playfield.balls, self.modes_fp(), self.rel_timers(), self.task_fp(),
+                simple_state(g, exclude=("player_list", "start_event_kwargs", "event_handlers", "mode_devices", "stop_methods")) if g else None,
+                simple_state(m.modes["tilt"], exclude=("event_handlers", "mode_devices", "stop_methods", "start_event_kwargs", "tilt_config")))
 
     def observe(self):
         g = self.m.game
@@ -337,8 +339,8 @@ def make(key):
 
 def body(ctx):
     quick = ctx.tier == "quick"
-    keys = sorted(CONFIGS)
-    res = bfs([make(k) for k in keys], 5 if quick else 7, observe=True)
+    keys = ["g12", "g22", "g23"] if quick else sorted(CONFIGS)
+    res = bfs([make(k) for k in keys], 5 if quick else 6, observe=True)
     for s in res.samples[:3]:
         ctx.sample(s)
     for sig, (what, hist) in res.violations.items():
@@ -350,7 +352,7 @@ def body(ctx):
     ctx.assume("game without ball devices (add_ball stubbed, 3 balls known, as the suite's fake-game test case does); "
                "configurations (balls_per_game, max_players) in %r" % sorted(CONFIGS.values()),
                "requests arriving where the statement is silent (e.g. what an extra ball does after an end-game request) are not judged",
-               "BFS depth 5 (quick) / 7 (thorough)")
+               "BFS depth 5 on 3 configurations (quick) / 6 on all 5 (thorough)")
     return ("drains", "held_queue_events", "ops_while_queue_event_held", "quiescent_states")
 
 
